@@ -435,14 +435,19 @@ theorem pr_no_fabrication_any_history (sid : UInt16) (ppid : UInt32) (hp : ppid.
 /-! ### the sending side of partial reliability -/
 
 /-- **abandon_only_with_cause_partial**: `update_advanced_peer_ack_point` abandons a record only if
-an unacknowledged record with the same (stream, SSN) key has exhausted its retransmissions or its
-lifetime. Partial: that key identifies the *message* only on ordered channels; on an unordered
+it is partially reliable itself (max-retransmits or lifetime set) **and** an unacknowledged record
+with the same (stream, SSN) key has exhausted its retransmissions or its lifetime. In particular a
+reliable chunk — the channel's DCEP OPEN / ACK, which travel on the channel's stream with SSN 0 —
+is never abandoned (`reliable_chunk_never_abandoned`; before fix W3 it was, by proxy of the first
+message). Partial: the key identifies the *message* only on ordered channels; on an unordered
 channel every message has SSN 0 (witness below). -/
 theorem abandon_only_with_cause_partial (expired : List UInt32) (q : List SRec) (flight : Nat) :
     ∀ r' ∈ (abandonMark (abandonSet expired q) q flight).1,
-      (r' ∈ q) ∨ (∃ c ∈ q, c.sid = r'.sid ∧ c.ssn = r'.ssn ∧ c.acked = false ∧ shouldAbandon expired c = true) := by
+      (r' ∈ q) ∨ ((r'.maxRetransmits.isSome || r'.hasExpiry) = true ∧
+        ∃ c ∈ q, c.sid = r'.sid ∧ c.ssn = r'.ssn ∧ c.acked = false ∧ shouldAbandon expired c = true) := by
   have key : ∀ (set : List (UInt16 × UInt16)) (l : List SRec) (fl : Nat),
-      ∀ r' ∈ (abandonMark set l fl).1, r' ∈ l ∨ set.contains (r'.sid, r'.ssn) = true := by
+      ∀ r' ∈ (abandonMark set l fl).1, r' ∈ l ∨
+        ((r'.maxRetransmits.isSome || r'.hasExpiry) = true ∧ set.contains (r'.sid, r'.ssn) = true) := by
     intro set l
     induction l with
     | nil => intro fl r' h; simp [abandonMark] at h
@@ -451,9 +456,10 @@ theorem abandon_only_with_cause_partial (expired : List UInt32) (q : List SRec) 
       unfold abandonMark at h
       split at h
       · next hc =>
+        rw [Bool.and_eq_true] at hc
         simp only [List.mem_cons] at h
         cases h with
-        | inl h1 => right; rw [h1]; exact hc
+        | inl h1 => right; rw [h1]; exact ⟨hc.1, hc.2⟩
         | inr h1 =>
           cases ih _ r' h1 with
           | inl h2 => left; simp [h2]
@@ -470,12 +476,34 @@ theorem abandon_only_with_cause_partial (expired : List UInt32) (q : List SRec) 
   | inl h => exact Or.inl h
   | inr h =>
     right
-    have hm : (r'.sid, r'.ssn) ∈ abandonSet expired q := by simpa using h
+    refine ⟨h.1, ?_⟩
+    have hm : (r'.sid, r'.ssn) ∈ abandonSet expired q := by simpa using h.2
     simp only [abandonSet, List.mem_map, List.mem_filter, Bool.and_eq_true, Bool.not_eq_true'] at hm
     obtain ⟨c, ⟨hc, ⟨⟨h1, _⟩, h3⟩⟩, heq⟩ := hm
     have e1 : c.sid = r'.sid := congrArg Prod.fst heq
     have e2 : c.ssn = r'.ssn := congrArg Prod.snd heq
     exact ⟨c, hc, e1, e2, h1, h3⟩
+
+/-- **reliable_chunk_never_abandoned** (fix W3): the marking pass leaves every reliable record
+(no max-retransmits, no lifetime — user data of reliable channels, DCEP OPEN / ACK of any channel)
+exactly as it was, whatever else shares its stream and SSN. -/
+theorem reliable_chunk_never_abandoned (expired : List UInt32) (q : List SRec) (flight : Nat) :
+    ∀ r' ∈ (abandonMark (abandonSet expired q) q flight).1,
+      r'.maxRetransmits = none → r'.hasExpiry = false → r' ∈ q := by
+  intro r' hr' h1 h2
+  cases abandon_only_with_cause_partial expired q flight r' hr' with
+  | inl h => exact h
+  | inr h => simp [h1, h2] at h
+
+/-- the history of W3: the DCEP OPEN (TSN 10, reliable) and the first message of an in-band
+max-retransmits-0 channel (TSN 11, same stream, SSN 0) are outstanding and the message is to be
+abandoned: the OPEN stays, unabandoned, and the advanced peer ack point does not move past it -/
+example :
+    let q : List SRec := [{ tsn := 10, len := 40, transmitCount := 1, sid := 2, ssn := 0, flags := 7 },
+                           { tsn := 11, len := 100, transmitCount := 1, sid := 2, ssn := 0, flags := 3, maxRetransmits := some 0 }]
+    (updateAdvanced [] q 140 9 9 false []).advanced = 9 ∧
+    (updateAdvanced [] q 140 9 9 false []).sentQ.map (fun r => (r.tsn, r.abandoned)) = [(10, false), (11, true)] := by
+  decide
 
 /-- **unordered_abandon_collateral_witness** (recorded finding
 `pr:message-abandoned-without-cause:unordered-channel-ssn-always-0`): two one-chunk messages on the
